@@ -106,9 +106,11 @@ PROPS.update({
                      "header case with >=2 entries, accepted flag set; distinct = FNV-1a of the canonical JSON of the case. Thorough adds native fuzzing of header values and flag strings.",
                 assume=["library helpers compiled with the default go toolchain in a scratch copy of the module; unexported helpers reached through an in-package test and a build-tag guarded export file",
                         "backoff is checked for 0 <= base <= max (every caller passes positive constants)", "a search, not a proof"]),
-    "C17": dict(kind="harness", parts=[dict(pkg="./cfg", test="TestC17", replay_key="text"), dict(pkg="./poolsim", test="TestC17Pool", replay_key="ops")],
-                quick=dict(checks=15000, shards=4, timeout=600),
-                thorough=dict(checks=200000, shards=16, timeout=3000, fuzz=("FuzzC17", 90)),
+    "C17": dict(kind="harness", parts=[dict(pkg="./cfg", test="TestC17", replay_key="text"), dict(pkg="./poolsim", test="TestC17Pool", replay_key="ops"),
+                                       dict(pkg="./cfg", test="TestC17", replay_key="text"), dict(pkg="./poolsim", test="TestC17Pool", replay_key="ops"),
+                                       dict(pkg="./gmesim", test="TestC17GME", replay_key="init", quick_checks=400, thorough_checks=8000)],
+                quick=dict(checks=15000, shards=5, timeout=600),
+                thorough=dict(checks=200000, shards=15, timeout=3000, fuzz=("FuzzC17", 90)),
                 rule="two generators. (1) JSON texts of ApiConfig built from a drawn message by a schema-driven renderer - valid by construction (camelCase or snake_case names, numbers as "
                      "numbers / integral floats / exponents / strings, enums by name or number incl. unknown numbers, null for singular fields, arbitrary whitespace and order, zero values written or omitted) "
                      "or carrying exactly one of 28 injected faults - checked for accept/reject, equality with the expected message and a lossless round trip; every 10th valid case also goes through "
@@ -116,7 +118,8 @@ PROPS.update({
                      "no channelPool, no methods, nil/foreign/alternative configs before and after the first accepted one) in which the effective configuration is observed behaviourally against a model that "
                      "applies the documented defaults 1/4/100 itself (initial size, growth limit, saturation threshold, method routing); after every resolver update the caller's config object is compared with a "
                      "pre-call clone and then scribbled over. Non-trivial = config with a defaulted and an explicitly set field and >=2 method entries (texts) / a later or nil config plus size- or routing-relevant "
-                     "picks (histories); distinct = FNV-1a of the canonical JSON of the case. Thorough adds native differential fuzzing of the parser against protojson.",
+                     "picks (histories); distinct = FNV-1a of the canonical JSON of the case. (3) GCPMultiEndpoint constructions over in-memory servers with a drawn channel-pool minSize 0-3: every pool of a reachable "
+                     "endpoint opens exactly max(1,minSize) transport connections (counted at the dialer). Thorough adds native differential fuzzing of the parser against protojson.",
                 assume=POOL_ASSUME + ["acceptance classes of protojson were validated against the parser on the unchanged tree (DESIGN §4 C17)",
                                       "method names listed in several entries are generated but only checked for absence of panics"]),
     "C12": dict(kind="harness", pkg="./icept", test="TestC12",
@@ -209,7 +212,7 @@ class Runner:
     def __init__(self, prop, tier, seed, repo, here, replay):
         self.prop, self.tier, self.seed, self.repo, self.here, self.replay = prop, tier, seed, repo, here, replay
         self.spec = PROPS[prop]
-        self.bdir = os.path.join(here, "build", "%s-%s" % (prop, tier if not replay else "replay"))
+        self.bdir = os.path.join(here, "build", "%s-%s-%d" % (prop, tier if not replay else "replay", os.getpid()))
         self.t0 = time.time()
 
     # ---- build helpers -------------------------------------------------------------------
@@ -248,6 +251,23 @@ class Runner:
         open(self.modfile, "w").write(gm)
         shutil.copy(os.path.join(self.here, "harness", "go.sum"), os.path.join(self.bdir, "go.sum"))
         return None
+
+    def cleanup(self, code):
+        """binaries are always removed; logs and statistics are kept only when the run did not pass"""
+        if os.environ.get("VERIF_KEEP_BUILD"):
+            return
+        if code == 0:
+            shutil.rmtree(self.bdir, ignore_errors=True)
+            return
+        for f in glob.glob(os.path.join(self.bdir, "*.bin")) + glob.glob(os.path.join(self.bdir, "fuzzcache")) + glob.glob(os.path.join(self.bdir, "instr")):
+            if os.path.isdir(f):
+                shutil.rmtree(f, ignore_errors=True)
+            else:
+                os.remove(f)
+        # keep at most 30 failed run directories
+        old = sorted(glob.glob(os.path.join(self.here, "build", "C*-*-*")), key=os.path.getmtime)
+        for d in old[:-30]:
+            shutil.rmtree(d, ignore_errors=True)
 
     def parts(self):
         return self.spec.get("parts") or [dict(pkg=self.spec["pkg"], test=self.spec["test"])]
